@@ -120,3 +120,121 @@ def outcomes(root, ev, classify):
 
     run(root, True)
     return kinds
+
+
+
+def bool_eval(db, f, e, ev, depth=2):
+    """three-valued value of boolean expression `e` under the atom evaluator `ev`; an atom that is a call to a private helper of
+    the same file is evaluated by abstractly executing the helper's body (all its return values must agree)"""
+    from .db import is_call, deref_all
+    from .inline import _is_helper
+
+    def atom(a):
+        v = ev(a)
+        if v is not None:
+            return v
+        a2 = deref_all(a)
+        if a2 is not a and isinstance(a2, dict):
+            v = eval3(a2, atom)
+            if v is not None:
+                return v
+        if isinstance(a2, dict) and is_call(a2) and depth > 0:
+            g = None
+            for k in (a2.get("resolved"), a2.get("callee"), callee(a2)):
+                if k and k in db.fns:
+                    g = db.fns[k]
+                    break
+            if g is not None and _is_helper(db, f, g):
+                kinds = outcomes(g.hir, atom, lambda x: {True: "T", False: "F", None: "?"}[bool_eval(db, g, x, ev, depth - 1)])
+                kinds.discard("try")
+                if kinds == {"T"}:
+                    return True
+                if kinds == {"F"}:
+                    return False
+        return None
+    return eval3(e, atom)
+
+
+
+_W = {"u8": 8, "u16": 16, "u32": 32, "u64": 64, "usize": 64, "i8": 8, "i16": 16, "i32": 32, "i64": 64, "isize": 64}
+
+
+def pure_eval(db, f, args):
+    """value of a small PURE function (integer / bit arithmetic over its parameters, no calls, no state) at concrete argument
+    values — constant folding of its expression tree, used to compare bit-field accessors with the format they must implement.
+    Returns None when the body contains anything else."""
+    from .origins import index as oindex
+    bd = oindex(db).bindings(f)
+
+    class Unknown(Exception):
+        pass
+
+    def wrap(v, ty):
+        w = _W.get(ty)
+        if w is None or isinstance(v, bool):
+            return v
+        v &= (1 << w) - 1
+        if ty.startswith("i") and v >> (w - 1):
+            v -= 1 << w
+        return v
+
+    def ev(n, env):
+        n = peel(n)
+        k = n.get("k")
+        if k == "Block":
+            env = dict(env)
+            for st in n.get("stmts", []):
+                if st["k"] == "Let" and "init" in st and st["pat"].get("k") == "Bind":
+                    env[st["pat"]["lid"]] = ev(st["init"], env)
+                elif st["k"] == "Let":
+                    raise Unknown()
+                else:
+                    e = st["e"]
+                    if e.get("mac") and any(m.startswith("debug_assert") for m in e["mac"]):
+                        continue
+                    raise Unknown()
+            if "expr" not in n:
+                raise Unknown()
+            return ev(n["expr"], env)
+        if k == "Lit":
+            if n.get("t") == "bool":
+                return bool(n["v"])
+            if isinstance(n.get("v"), int):
+                return n["v"]
+            raise Unknown()
+        if k == "Path" and n.get("res") == "local":
+            if n["lid"] in env:
+                return env[n["lid"]]
+            b = bd.get(n["lid"])
+            if b and b[0] == "param" and b[1] < len(args):
+                return args[b[1]]
+            raise Unknown()
+        if k == "Path" and n.get("val") is not None and isinstance(n["val"], int):
+            return n["val"]
+        if k == "Cast":
+            return wrap(ev(n["e"], env), n.get("ty"))
+        if k == "Unary" and n.get("op") == "Not":
+            v = ev(n["e"], env)
+            return (not v) if isinstance(v, bool) else wrap(~v, n.get("ty"))
+        if k == "If" and "else" in n:
+            return ev(n["then"], env) if ev(n["cond"], env) else ev(n["else"], env)
+        if k == "Binary":
+            op = n["op"]
+            a = ev(n["l"], env)
+            if op == "And":
+                return bool(a) and bool(ev(n["r"], env))
+            if op == "Or":
+                return bool(a) or bool(ev(n["r"], env))
+            b = ev(n["r"], env)
+            if op in ("Eq", "Ne", "Lt", "Le", "Gt", "Ge"):
+                return holds(op, a, b)
+            fn = {"BitAnd": lambda: a & b, "BitOr": lambda: a | b, "BitXor": lambda: a ^ b, "Shl": lambda: a << b if 0 <= b < 128 else None,
+                  "Shr": lambda: a >> b if 0 <= b < 128 else None, "Add": lambda: a + b, "Sub": lambda: a - b, "Mul": lambda: a * b}.get(op)
+            if fn is None or fn() is None:
+                raise Unknown()
+            return wrap(fn(), n.get("ty"))
+        raise Unknown()
+    try:
+        return ev(f.hir, {})
+    except Unknown:
+        return None
